@@ -382,30 +382,31 @@ PROPS = {
                         "directory model: files are independent named contents; Db::open+drop (log replay) is an abstract function of the directory in the frame theorems"],
     },
     "C20": {
-        "level_text": ("Lean theorems C20_recover_key_roundtrip (every 32-byte hashed key, every address, index sizes 16..49: the key "
-                       "iter_index rebuilds from page number + partial key + stored tail is the key the entry was built from; shift "
-                       "expressions regenerated from src/index.rs on every run), C20_dest_eq_source / _user / _rc / _counts_one / "
-                       "C20_same_keys / C20_same_value (for every WELL-FORMED source column state (SrcCol.WF: keyed by key, so stale index entries - finding F26 - are not representable) - any contents, counts 1 <= n < u32::MAX, entries "
-                       "spread over the newest and queued older index tables - and every destination kind, the re-committed walk leaves "
-                       "exactly the source keys with the same values, the same counts on a reference-counted destination and count 1 "
-                       "otherwise), C20_iter_complete (the walk reports every live key exactly once), C20_selection / "
-                       "C20_unselected_copied / C20_source_unchanged / C20_selected_content (column selection, copied columns, source "
-                       "untouched without overwrite; C20_unselected_copied and C20_iter_complete are statements about the abstract column model and "
-                       "hold by construction - the code-level content is in the next two groups). Directory level (model of copy_column / move_column "
-                       "/ deplace_column on the C17 directory model; the `||` chain of is_file_name tests is regenerated from src/migration.rs and "
-                       "C20_deplace_chain_eq_drop_files proves it equal to the chain of Column::drop_files - this obligation fails on the code before "
-                       "fix 039fa8c): C20_unselected_files_copied (for every directory content, every behaviour of the database handles within the "
-                       "frame conditions DbEffects.Frame, every selection, overwrite on/off: every file that belongs to an unselected column by the test "
-                       "Column::drop_files uses is in the result directory with the same content, no other file of that column is, and the source keeps "
-                       "it), C20_copy_move_column, negation witness C20_old_chain_loses_refcount. Physical walk (tables oldest first, an entry is skipped "
-                       "iff an older table holds the same partial key and address): C20_walk_complete / C20_walk_dest_eq_source under the explicit "
-                       "hypotheses PhysCol.Inv (inj = C09 IdxInv.inj; nodup and live are NOT provided by C09, live is false in reachable states: "
-                       "C20_walk_stale_witness = known finding F26), C20_walk_only_written_keys, C20_selection_multitree_refused. "
-                       "The code before the fixes is modelled too (migrateColBuggy): the property is false "
-                       "for it, with proved witnesses C20_F6_counterexample (count 2 into a plain destination yields the empty value) and "
-                       "C20_F10_counterexample (a key still held by a queued older index table is lost), and C20_buggy_exact says exactly "
-                       "which cells differ. The model is tied to the code by running parity_db::migrate on generated source databases and "
-                       "comparing the destination content with the compiled model and with an independent BTreeMap oracle."),
+        "level_text": ("Lean theorems C20_recover_key_roundtrip (every 32-byte hashed key, every address, index sizes 16..49: the key iter_index"
+                       " rebuilds from page number + partial key + stored tail is the key the entry was built from; shift expressions regenerate"
+                       "d from src/index.rs on every run), C20_dest_eq_source / _user / _rc / _counts_one / C20_same_keys / C20_same_value (for "
+                       "every WELL-FORMED source column state (SrcCol.WF: keyed by key, so stale index entries - finding F26 - are not represent"
+                       "able) - any contents, counts 1 <= n < u32::MAX, entries spread over the newest and queued older index tables - and every"
+                       " destination kind, the re-committed walk leaves exactly the source keys with the same values, the same counts on a refer"
+                       "ence-counted destination and count 1 otherwise), C20_iter_complete (the walk reports every live key exactly once), C20_s"
+                       "election / C20_unselected_copied / C20_source_unchanged / C20_selected_content (column selection, copied columns, source"
+                       " untouched without overwrite; C20_unselected_copied and C20_iter_complete are statements about the abstract column model"
+                       " and hold by construction - the code-level content is in the next two groups). Directory level (model of copy_column / m"
+                       "ove_column / deplace_column on the C17 directory model; the `||` chain of is_file_name tests is regenerated from src/mig"
+                       "ration.rs and C20_deplace_chain_eq_drop_files proves it equal to the chain of Column::drop_files - this obligation fails"
+                       " on the code before fix 039fa8c): C20_unselected_files_copied (for every directory content, every behaviour of the datab"
+                       "ase handles within the frame conditions DbEffects.Frame, every selection, overwrite on/off: every file that belongs to a"
+                       "n unselected column by the test Column::drop_files uses is in the result directory with the same content, no other file "
+                       "of that column is, and the source keeps it), C20_copy_move_column, negation witness C20_old_chain_loses_refcount. Physic"
+                       "al walk (tables oldest first, an entry is skipped iff an older table holds the same partial key and address): C20_walk_c"
+                       "omplete / C20_walk_dest_eq_source under the explicit hypotheses PhysCol.Inv (inj = C09 IdxInv.inj; nodup and live are NO"
+                       "T provided by C09, live is false in reachable states: C20_walk_stale_witness = finding F26, fixed by 515aeb7 on the writ"
+                       "e path; the hypotheses live / nodup of the walk theorems are still hypotheses), C20_walk_only_written_keys, C20_selectio"
+                       "n_multitree_refused. The code before the fixes is modelled too (migrateColBuggy): the property is false for it, with pro"
+                       "ved witnesses C20_F6_counterexample (count 2 into a plain destination yields the empty value) and C20_F10_counterexample"
+                       " (a key still held by a queued older index table is lost), and C20_buggy_exact says exactly which cells differ. The mode"
+                       "l is tied to the code by running parity_db::migrate on generated source databases and comparing the destination content "
+                       "with the compiled model and with an independent BTreeMap oracle. "),
         "level_note": ("Trusted: Lean kernel; destination semantics = Pdb.spec / applyCell (tied by C01 / C07); compression round trip "
                        "(A-compress); hash functions are opaque (the theorem needs only equal `uniform` flags and the copied salt); the "
                        "loop structure of migrate (rc Sets per entry, COMMIT_SIZE batching, the order of copy_column / move_column / write_metadata in the "
@@ -702,7 +703,7 @@ PROPS = {
         "trusted": ["tools/skeleton.py (Pdb/Gen/Order.lean)"],
     },
     "C09": {
-        "lean": ["Pdb.Props.C09", "Pdb.Props.C09Total", "Pdb.Props.C09F24", "Pdb.Props.C09Replay", "Pdb.Proofs.GenBits", "Pdb.Props.Refine"],
+        "lean": ["Pdb.Props.C09", "Pdb.Props.C09Total", "Pdb.Props.C09F24", "Pdb.Props.C09Replay", "Pdb.Proofs.GenBits", "Pdb.Props.Refine", "Pdb.Props.C09Stale"],
         "harness": [{"cmd": "c09", "quick": 48, "thorough": 600, "timeout": 3000}],
         "level_text": ("Lean theorems C09_index_inv_preserved / C09_lookup_latest / C09_no_panic / C09_collision_individual over all histories ("
                        "set, del, reindex batch, enacted drop, reopen/recovery, relaunched growth) of the index-layer model (current table + que"
@@ -727,7 +728,13 @@ PROPS = {
                        " records whose table already exists), C09_replay_idempotent, C09_replay_skips_dropped, tie to the index model (C09_repla"
                        "y_reindex_is_trigger, C09_replay_drop_is_enactDrop). Model tied by differential runs (set/del/get/stat/slots/crashto) an"
                        "d a BTreeMap + prefix oracle with crash images at every growth phase, incl. images with 1..3 enacted-but-unreclaimed log"
-                       " files (counters crash.retained_enacted_*) and a half-enacted growth record."),
+                       " files (counters crash.retained_enacted_*) and a half-enacted growth record. Stale index entries (findings F26, F29 and "
+                       "the stale variant of F28) are fixed in /repo by 515aeb7: the write path removes the entries of a freed slot from the que"
+                       "ued older tables (model flag cfg.purge, Index.purgeOlder); every C09 / C14 / R1..R5 theorem is quantified over cfg and s"
+                       "o holds for the code with and without the fix; C09_purge_keeps_good, C09_purge_only_dead, C09_twin_fixed / C09_twin_unfi"
+                       "xed_vs_fixed (Props/C09Stale) replay the F29 history on both variants; the negation witnesses (twin, stale class) run th"
+                       "e code WITHOUT the fix; F28 remains for 65 LIVE keys of one class. Not proved: a global 'no stale entry' invariant (Phys"
+                       "Col.Inv.live stays a hypothesis of C20_walk_complete)."),
         "level_note": ("Trusted: Lean kernel; logical-state model (pipeline stages are P1); single-slot values (tier 255 by structural checks on"
                        "ly); A-tail; hook verif_dump. Scope notes (second audit): C09_replay_absorbs is about a stand-alone structural model of "
                        "replay over index files (Pdb/Model/IndexReplay.lean: tables, queue, absolute after-images, DropTable), tied to the index"
@@ -756,14 +763,15 @@ PROPS = {
         "harness": [{"cmd": "c09", "quick": 48, "thorough": 600, "timeout": 3000},
                     {"cmd": "c10", "quick": 100, "thorough": 1500},
                     {"cmd": "c02x", "quick": 150, "thorough": 2000, "timeout": 7200}],
-        "level_text": ("Lean theorems: IndexInv / SlotInvAbs / NoLeak preserved over all histories (C14_index_inv_preserved, C14_no_leak), "
-                       "C14_no_misattribution, C14_remove_returns_slot, C14_fill_mark_moves_only_when_no_free_slot, C14_iter_values_exact on the abstract "
-                       "value tables of the index-layer model (C14_index_inv_preserved_total: the same from input hypotheses only, Props/C09Total; "
-                       "C09_full_statement_false_twin: 'no index entry resolves to a value of another key' fails for two keys with equal stored tail, "
-                       "finding F29); the byte-level slot invariant (free list acyclic / in range, chains disjoint, live + free = "
-                       "filled - 1) is C06's SlotInv, the btree invariant C04's TreeInv, the reference-count invariant C10's RcInv. Tied to the code by "
-                       "structural checks on read-only dumps of the real index tables, value tables and free lists after every drain / reopen / recovery, "
-                       "steady insert/remove workloads, and value iteration."),
+        "level_text": ("Lean theorems: IndexInv / SlotInvAbs / NoLeak preserved over all histories (C14_index_inv_preserved, C14_no_leak), C14_n"
+                       "o_misattribution, C14_remove_returns_slot, C14_fill_mark_moves_only_when_no_free_slot, C14_iter_values_exact on the abst"
+                       "ract value tables of the index-layer model (C14_index_inv_preserved_total: the same from input hypotheses only, Props/C0"
+                       "9Total; C09_full_statement_false_twin: 'no index entry resolves to a value of another key' fails for two keys with equal"
+                       " stored tail, finding F29); the byte-level slot invariant (free list acyclic / in range, chains disjoint, live + free = "
+                       "filled - 1) is C06's SlotInv, the btree invariant C04's TreeInv, the reference-count invariant C10's RcInv. Tied to the "
+                       "code by structural checks on read-only dumps of the real index tables, value tables and free lists after every drain / r"
+                       "eopen / recovery, steady insert/remove workloads, and value iteration. F29 (twin tails through stale entries) is fixed b"
+                       "y 515aeb7, see C09."),
         "level_note": ("Trusted: Lean kernel; hooks Db::verif_dump / verif_table_entry (raw slot bytes, index entries, free-list head, header). The "
                        "invariants are evaluated on every dump by the LEAN checker (driver command t2: checkSlots / checkIndex / checkTree), proved sound "
                        "against the Prop invariants of the theorems (C14Dump_slots_sound, C14Dump_index_sound, C14Dump_tree_sound, ...); the harness's Rust "
